@@ -238,7 +238,8 @@ Definition margf_cis (n : nat) (c : Z) (bf : list (wpx -> wpx)) (px : list pixel
 
 Record chrom_res := { c_bias : list (option Q); c_scale : option Q; c_var : Q; c_iters : nat }.
 
-Definition eff_chunk (o : opts) (nnz : Z) : Z := match o_chunk o with None => nnz | Some c => c end.
+(** chunksize=None -> max(nnz, 1)  (repair D30: never a zero step for the cis-only partition of an empty cooler) *)
+Definition eff_chunk (o : opts) (nnz : Z) : Z := match o_chunk o with None => Z.max nnz 1 | Some c => c end.
 
 (** result: None = error (max_iters = 0); otherwise the unrescaled weights with NaN marks, and per
     (sub)problem (scale, var, iterations).  The returned Python weights are these divided by sqrt(scale)
